@@ -6,7 +6,8 @@
 (***************************************************************************)
 EXTENDS Naturals, Sequences, FiniteSets, TLC, Json
 
-Tops == {"Success", "Requester", "Responder", "VersionMismatch", "urn:verif:status:top"}
+\* "SuccessCut" / "SuccessBare": pieces of the Success URN (the URN without its last letter; the bare word "Success") -- not Success
+Tops == {"Success", "Requester", "Responder", "VersionMismatch", "urn:verif:status:top", "SuccessCut", "SuccessBare"}
 
 \* standard second-level status codes (SAML core 3.2.2.2) and the documented error class of each;
 \* the two top-level codes the library also documents as second-level keys are included
@@ -36,8 +37,11 @@ Pre == {"ok", "badsig", "foreigndest"}        \* the checks that come before the
 \* (parse_logout_request_response), which carry no assertion.
 Scn == [kind : {"response"}, top : Tops, second : Seconds, msg : Msgs, asrt : {"none", "signed"},
         version : Versions, pre : Pre, via : {"post", "soap"}]
+       \* kind "logout_request": the other request class, delivered to the identity provider over the redirect binding or SOAP
        \cup [kind : {"request"}, top : {"Success"}, second : {"absent"}, msg : {"absent"}, asrt : {"none"},
              version : Versions, pre : {"ok"}, via : {"post"}]
+       \cup [kind : {"logout_request"}, top : {"Success"}, second : {"absent"}, msg : {"absent"}, asrt : {"none"},
+             version : Versions, pre : {"ok"}, via : {"post", "soap"}]
        \cup [kind : {"logout_response"}, top : Tops, second : Seconds, msg : Msgs, asrt : {"none"},
              version : {"2.0", "1.1", "2"}, pre : {"ok"}, via : {"post", "soap"}]
 \* versions other than 2.0 are combined with two status shapes only
@@ -54,13 +58,13 @@ Goto(p) == pc' = p /\ UNCHANGED <<scn, verdict, exc>>
 Signature == pc = "signature" /\ IF scn.pre = "badsig" THEN Fail("SignatureError") ELSE Goto("version")
 Version ==
     /\ pc = "version"
-    /\ CASE scn.version = "2.0" -> Goto(IF scn.kind = "request" THEN "accept" ELSE "destination")
+    /\ CASE scn.version = "2.0" -> Goto(IF scn.kind \in {"request", "logout_request"} THEN "accept" ELSE "destination")
          [] scn.kind = "logout_response" -> Fail(IF scn.version = "1.1" THEN "RequestVersionTooLow" ELSE "RequestVersionTooHigh")
          \* Request.verify turns the failed assertion into a None result
-         [] scn.version \in {"1.0", "1.1"} -> Fail(IF scn.kind = "request" THEN "None" ELSE "RequestVersionTooLow")
+         [] scn.version \in {"1.0", "1.1"} -> Fail(IF scn.kind \in {"request", "logout_request"} THEN "None" ELSE "RequestVersionTooLow")
          \* anything that is not the string "2.0" and reads as a number not below two counts as too high
-         [] scn.version \in {"2.1", "3.0", "2", "2.00", "+2.0", "nan", "2.0 "} -> Fail(IF scn.kind = "request" THEN "None" ELSE "RequestVersionTooHigh")
-         [] OTHER -> Fail(IF scn.kind = "request" THEN "None" ELSE "ValueError")
+         [] scn.version \in {"2.1", "3.0", "2", "2.00", "+2.0", "nan", "2.0 "} -> Fail(IF scn.kind \in {"request", "logout_request"} THEN "None" ELSE "RequestVersionTooHigh")
+         [] OTHER -> Fail(IF scn.kind \in {"request", "logout_request"} THEN "None" ELSE "ValueError")
 \* a foreign Destination makes _verify return None; the caller then trips over the missing object
 Destination == pc = "destination" /\ IF scn.pre = "foreigndest" THEN Fail("AttributeError") ELSE Goto("status")
 Status ==
